@@ -280,6 +280,33 @@ def h_nan(eng):
                         eng.fail(f"context:{ctx}:{name}:unit-cross-dimension-ordered:{qa.units},{qb.units}", stop=False)
                 P(bool(qa == qb) is False and bool(qa != qb) is True, f"context:{ctx}:eq-false:{qa.units},{qb.units}")
             P(bool(Qy(1.0, "meter") < Qy(200.0, "centimeter")) and bool(Qy(1.0, "inch") == Qy(2.54, "centimeter")), f"context:{ctx}:same-dimension-as-usual")
+    # floats one or a few ulp apart are different numbers (pairs whose conversion is exact in
+    # binary, so that no rounding of the factor is involved; ties of inexact factors are outside)
+    import math
+
+    for base, u1, u2 in ((3.0, "meter", "centimeter"), (2.0, "hour", "second"), (7.0, "kilogram", "gram"), (5.0, "kilometer", "meter")):
+        a = Qy(base, u1)
+        centre = a.to(u2).magnitude
+        P(bool(a == Qy(centre, u2)) and bool(Qy(centre, u2) == a) and hash(a) == hash(Qy(centre, u2)), f"neighbouring-floats:centre-equal:{base}{u1}")
+        up = down = centre
+        for n_ in range(1, 5):
+            up, down = math.nextafter(up, math.inf), math.nextafter(down, -math.inf)
+            for v in (up, down):
+                b = Qy(v, u2)
+                P(not bool(a == b) and not bool(b == a) and bool(a != b), f"neighbouring-floats:{n_}-ulp-apart-is-unequal:{base}{u1}:{v!r}")
+    # a float and a Fraction are equal when they are the same number
+    from fractions import Fraction as F_
+
+    fr = regs.fraction_default()
+    for reg in (ureg, fr):
+        for fa, fl in ((F_(1, 10), 0.1), (F_(1, 3), 1 / 3), (F_(1, 2), 0.5), (F_(0.1), 0.1)):
+            same = F_(fl) == fa
+            a, b = reg.Quantity(fa, "meter"), reg.Quantity(fl, "meter")
+            for x_, y_ in ((a, b), (b, a)):
+                e, l, g = bool(x_ == y_), bool(x_ < y_), bool(x_ > y_)
+                P(e == same, f"mixed-number-types:eq-iff-same-number:{fa},{fl!r}")
+                P(e + l + g == 1, f"mixed-number-types:trichotomy:{fa},{fl!r}")
+            P(bool(reg.Quantity(fa, "") == fl) == same, f"mixed-number-types:bare-number:{fa},{fl!r}")
     P(Qy(inf_, "meter") > Qy(1e300, "kilometer") and Qy(-inf_, "meter") < Qy(-1e300, "kilometer"), "inf:orders-beyond-everything")
     P(Qy(inf_, "meter") == Qy(inf_, "centimeter") and not (Qy(inf_, "meter") == Qy(-inf_, "meter")), "inf:equality")
     P(hash(Qy(inf_, "meter")) == hash(Qy(inf_, "centimeter")), "inf:hash")
